@@ -1,5 +1,6 @@
 """C09 — durations as a consistent signed quantity (limit table, record totality, sibling agreement, wiring)."""
 from ._std import *
+from ._std import check_must_call_on_success
 from ..rules import ranges, wiring, units
 from ..rules.common import hir_walk, node_line, OPT, UNIT, vname, fold
 
@@ -207,5 +208,15 @@ def main(tier):
     check_guarded_call(run, fx, rs.fn(D + "Duration::add"), "is_calendar_unit", "::add_days",
                        "R11.add-rejects-calendar-units", "Duration::add", kind="Range", guard_pass=False)
     units.report(run, fx, "C09")
+    # AddDurations: no success without the calendar-unit refusal and the balancing step
+    fadd = fx["temporal_rs"].fn("temporal_rs::builtins::core::duration::Duration::add")
+    rule = "R11.add-durations-balanced"
+    run.rule(rule, "every success path of Duration::add passes through BalanceTimeDuration (TimeDuration::from_normalized) - no "
+                   "fast path returns an operand unbalanced - and reaches it only after `largest_unit.is_calendar_unit()` was "
+                   "decided false (a RangeError otherwise)")
+    check_must_call_on_success(run, fx, fadd, ["TimeDuration::from_normalized"], rule, "Duration::add/balanced",
+                               "the result is not balanced to the larger of the two largest units")
+    check_guarded_call(run, fx, fadd, "is_calendar_unit", "TimeDuration::from_normalized", rule, "Duration::add/calendar-units",
+                       kind="Range", guard_pass=False)
     ranges.check_balance(run, fx)
     return run.finish(EXPLANATION)
